@@ -92,6 +92,7 @@ def epochSubM (cfg : Config) (agg : AggOracle) (sub : String) (s : State) : Opti
   | "randao_reset" => some (Impl.randaoResetM cfg s)
   | "historical" => some (Impl.historicalM cfg s)
   | "participation" => some (Impl.participationM s)
+  | "sync_committee" => if s.fork = .phase0 then none else some (Impl.syncCommitteeM cfg agg s.validators s)
   | _ => none
 
 def c02Line (line : String) : String :=
